@@ -6,6 +6,20 @@ import BU.Crypto.Sha256
 the translator by running what it emitted against the implementation it was emitted from. -/
 open Driver
 
+def unTok : Py.PyTok → Spec.Tok
+  | .name n => .op n
+  | .int n => .int n
+  | .data d => .data d
+
+/-- a parsed transaction object as the model's transaction value (for printing) -/
+def backTx (t : Py.PyTx) : Model.Tx where
+  version := t.version
+  locktime := t.locktime
+  hasSegwit := t.has_segwit
+  inputs := t.inputs.map fun i => { txid := i.txid, index := i.txout_index, scriptSig := i.script_sig.map unTok, sequence := i.sequence }
+  outputs := t.outputs.map fun o => { amount := o.amount, script := o.script_pubkey.map unTok }
+  witnesses := t.witnesses.map (·.stack)
+
 /-- as `Driver.ans`, but a function the translator could not translate answers `unsupported` -/
 def ansG {α} (f : α → String) : Except PyErr α → String
   | .ok v => "ok " ++ f v
@@ -103,6 +117,9 @@ def genOps3 : List (String × R String) := [
       pure (ansG hex (Gen.segwit_digest Crypto.sha256 Gen.OP_CODES t.version
         (t.inputs.map fun i => ⟨i.txid, i.index, py i.scriptSig, i.sequence⟩)
         (t.outputs.map fun o => ⟨o.amount, py o.script⟩) t.locktime (i : Int) (py code) amt (ht : Int)))),
+  ("g:tx_parse", do
+      let b ← bytes
+      pure (ansG (fun t => showTx (backTx t)) (Gen.transaction_from_raw Gen.CODE_OPS b))),
   ("g:dig_legacy", do
       let t ← tx; let i ← nat; let code ← toks; let ht ← nat
       let py := fun (ts : List Spec.Tok) => ts.map fun t => match t with
